@@ -15,6 +15,8 @@ LEVEL_NOTE = 'Trusted: datetime arithmetic and calendar.monthrange; month-based 
 RULE = ('a case is one start day pushed through every n in [-60,60] for unit b (and m; q,y strided) plus sampled fixed units, ints, timedeltas, intraday starts and '
         'random two/three-part compound tenors; quick: the days of 4 years + 600 random days; thorough: EVERY start day of 1900-01-01..2299-12-31 (exhaustive over days x n for b and m); '
         'non-trivial = start day on a weekend or month end (day>=29); distinct = distinct start day')
+RULE_ALSO = ('; also per day: the parts of a compound as separate arguments (text, ints, timedeltas mixed), intraday compounds over d/b/w/h/n/s, business days from an intraday start for '
+             'every (quick) or every third (thorough) n, and dt(bump) relative to today against the same oracle')
 ASSUMPTIONS = ['month-based units are claimed at midnight only (they reset the time of day)', 'results must stay within datetime range; starts are >= 1905 and <= 2294 for |n|<=60 years',
                'named tenors (spot/on/tn/sn) are checked only through their definition as 0b..3b']
 D0 = datetime.date(1900, 1, 1)
@@ -25,7 +27,7 @@ NS = list(range(-60, 61))
 
 def required(tier):
     return {'b_stepping_oracle': 100000, 'b_lands_on_weekday': 100000, 'b_monotone_in_t': 50000, 'b_composition': 5000, 'b_roundtrip': 20000, 'mqy_carry_oracle': 50000,
-            'mqy_roundtrip': 5000, 'fixed_units': 5000, 'compound_left_to_right': 1000, 'time_of_day_preserved': 2000}
+            'mqy_roundtrip': 5000, 'fixed_units': 5000, 'compound_left_to_right': 1000, 'time_of_day_preserved': 2000, 'separate_arguments': 1000, 'intraday_compound': 1000, 'dt_relative_to_today': 500}
 
 
 def exhaustive(tier):
@@ -303,6 +305,58 @@ def check_day(ctx, day, walk, rng, heavy, mq_all):
         ref_ = dt_bump(t, tenor_.replace('+', ''))
         if st_ != 'ok' or g_ != ref_:
             ctx.fail('explicit_plus_sign', 'dt_bump(%s, %r) = %s %r but %r gives %s' % (t, tenor_, st_, g_, tenor_.replace('+', ''), ref_), case=dict(term, tenor=tenor_))
+    # the parts of a compound handed over as separate arguments (dt_bump(t, *bumps)), text mixed with ints and timedeltas
+    for _ in range(3 if heavy else 1):
+        parts_, exp_ = [], t
+        try:
+            for _k in range(rng.choice([2, 3, 4])):
+                kind_ = rng.choice(['str', 'str', 'int', 'td', 'two'])
+                if kind_ == 'int':
+                    v_ = rng.randint(-40, 40); exp_ = exp_ + DAY * v_
+                elif kind_ == 'td':
+                    v_ = datetime.timedelta(days=rng.randint(-9, 9), hours=rng.randrange(24)); exp_ = exp_ + v_
+                elif kind_ == 'two':
+                    v_ = '%d%s%d%s' % (rng.randint(-12, 12), rng.choice('dbw'), rng.randint(-12, 12), rng.choice('dbwhns')); exp_ = oracle_tenor(exp_, v_)
+                else:
+                    # month-based parts only while the running value is still at midnight (claimed at midnight only)
+                    units_ = 'dbwmqy' if exp_.time() == datetime.time(0) else 'dbwhns'
+                    v_ = '%d%s' % (rng.randint(-12, 12), rng.choice(units_)); exp_ = oracle_tenor(exp_, v_)
+                parts_.append(v_)
+        except (ValueError, OverflowError):
+            continue
+        keep_ = list(parts_)
+        mon['separate_arguments'] += 1
+        st_, g_ = ctx.call(dt_bump, t, *parts_)
+        if st_ != 'ok' or g_ != exp_ or parts_ != keep_:
+            ctx.fail('separate_arguments', 'dt_bump(%s, *%r) = %s %r, applying the parts left to right gives %s' % (t, keep_, st_, g_, exp_), case=dict(term, tenor=repr(keep_)))
+    # intraday starts: compounds over the fixed-length and business-day units keep the time of day through every part
+    for _ in range(4 if heavy else 1):
+        tenor_ = ''.join('%d%s' % (rng.randint(-30, 30), rng.choice('dbwhnsbb')) for _k in range(rng.choice([2, 3])))
+        exp_ = oracle_tenor(T, tenor_)
+        mon['intraday_compound'] += 1
+        st_, g_ = ctx.call(dt_bump, T, tenor_)
+        if st_ != 'ok' or g_ != exp_:
+            ctx.fail('intraday_compound', 'dt_bump(%s (%s), %r) = %s %r, left-to-right oracle gives %s' % (T, T.strftime('%a'), tenor_, st_, g_, exp_), case=dict(term, tenor=tenor_, tod=tod.total_seconds()))
+    # business days from an intraday start, every 3rd n (all n in the quick tier): the day of the walk plus the time of day
+    for n in NS:
+        if not (heavy or n % 3 == 0):
+            continue
+        gb = dt_bump(T, BSTR[n])
+        mon['time_of_day_preserved'] += 1
+        eb = walk.bump(day, n)
+        if gb != datetime.datetime(eb.year, eb.month, eb.day) + tod:
+            ctx.fail('time_of_day_preserved', "dt_bump(%s (%s), '%db') = %s, expected %s + time of day" % (T, T.strftime('%a'), n, gb, eb), case=dict(term, n=n, unit='b', tod=tod.total_seconds()))
+            break
+    # dt(bump) is the bump from today's midnight (the clock is read around the call: either side of a day change is accepted)
+    if day.day % 9 == 0 or heavy:
+        for tenor_ in ('%db' % rng.randint(-60, 60), '%dm' % rng.randint(-24, 24), '1y-3m2d', '-%dw' % rng.randint(1, 9), '%dq' % rng.randint(-8, 8)):
+            mon['dt_relative_to_today'] += 1
+            d0_ = datetime.date.today()
+            st_, g_ = ctx.call(dt, tenor_)
+            d1_ = datetime.date.today()
+            refs_ = [oracle_tenor(datetime.datetime(d_.year, d_.month, d_.day), tenor_) for d_ in (d0_, d1_)]
+            if st_ != 'ok' or g_ not in refs_:
+                ctx.fail('dt_relative_to_today', 'dt(%r) = %s %r on %s; the bump from that midnight is %s' % (tenor_, st_, g_, d0_, refs_[0]), case=dict(term, tenor=tenor_))
     named = {'spot': 0, 'on': 1, 'o/n': 1, 'tn': 2, 't/n': 2, 'sn': 3, 's/n': 3}
     k = rng.choice(list(named))
     mon['named_tenors'] += 1
